@@ -417,6 +417,14 @@ class Currency(Unit):
 class MoneyMeta(QuantityMeta):
     """Meta class for Money"""
 
+    def _make_ref_unit(cls, symbol: str, name: Optional[str],  # noqa: N805
+                       define_as: Optional[UnitDefT]) -> Unit:
+        # like a currency created by `new_unit` without further details
+        curr = super()._make_ref_unit(symbol, name, define_as)
+        assert isinstance(curr, Currency)
+        curr._smallest_fraction = Decimal('0.01')
+        return curr
+
     def new_unit(cls, symbol: str, name: Optional[str] = None,
                  minor_unit: Optional[int] = None,
                  smallest_fraction: Union[Real, str, None] = None) \
